@@ -31,6 +31,79 @@ def showRes : Res → String
   | .noProvider => "value-error"
   | .fuel => "fuel"
 
+def parseAtt? (s : String) : Option Att :=
+  match s.splitOn "-" with
+  | [x, l, o, c] => do
+    let x ← x.toNat?; let l ← l.toNat?; let o ← o.toNat?; let c ← c.toNat?
+    pure ⟨x, l, o, c⟩
+  | _ => none
+
+/-- the segment tables of `n` dates, one after the other -/
+def parseDates (ps : List (Nat × Nat)) : Nat → List String → Option (List (List ((Nat × Nat) × List Float)) × List String)
+  | 0, toks => some ([], toks)
+  | n + 1, toks => do
+    let tab ← parseSegs ps (toks.take (6 * ps.length))
+    let (more, rest) ← parseDates ps n (toks.drop (6 * ps.length))
+    pure (tab :: more, rest)
+
+def parseOps : List String → Option (List Op)
+  | [] => some []
+  | "get" :: k :: a :: rest => do
+    let k ← k.toNat?; let a ← a.toNat?; let more ← parseOps rest; pure (.get k a :: more)
+  | "hand" :: k :: o :: c :: rest => do
+    let k ← k.toNat?; let o ← o.toNat?; let c ← c.toNat?; let more ← parseOps rest; pure (.hand k o c :: more)
+  | "setframe" :: i :: b :: rest => do
+    let i ← i.toNat?; let b ← b.toNat?; let more ← parseOps rest; pure (.setFrame i b :: more)
+  | "setval" :: i :: j :: x :: rest => do
+    let i ← i.toNat?; let j ← j.toNat?; let x ← fOfStr? x; let more ← parseOps rest; pure (.setVal i j x :: more)
+  | "read" :: i :: rest => do
+    let i ← i.toNat?; let more ← parseOps rest; pure (.read i :: more)
+  | "copy" :: i :: b :: rest => do
+    let i ← i.toNat?; let b ← b.toNat?; let more ← parseOps rest; pure (.copyTo i b :: more)
+  | "offset" :: k :: a :: b :: rest => do
+    let k ← k.toNat?; let a ← a.toNat?; let b ← b.toNat?; let more ← parseOps rest; pure (.offset k a b :: more)
+  | "center" :: k :: a :: b :: rest => do
+    let k ← k.toNat?; let a ← a.toNat?; let b ← b.toNat?; let more ← parseOps rest; pure (.center k a b :: more)
+  | "asframe" :: i :: x :: rest => do
+    let i ← i.toNat?; let x ← x.toNat?; let more ← parseOps rest; pure (.asFrame i x :: more)
+  | _ => none
+
+/-- `seq <npairs> <c-t>… <natt> <x-link-obj-cen>… <ndates> <6·npairs·ndates floats> <ops…>`: a history of requests
+against one kernel with the frames already attached in that process; the answers separated by `|`.
+ops: `get k a` · `hand k o c` · `setframe i b` · `setval i j <bits>` · `read i` · `copy i b` · `offset k a b` ·
+`center k a b` · `asframe i x` (k = date number, i = number of the object in order of creation). -/
+def handleSeq (toks : List String) : String :=
+  match toks with
+  | n :: rest =>
+    match n.toNat? with
+    | none => "bad-op"
+    | some n =>
+      match (rest.take n).mapM parsePair?, (rest.drop n) with
+      | some ps, na :: rest2 =>
+        match na.toNat? with
+        | none => "bad-op"
+        | some na =>
+          match (rest2.take na).mapM parseAtt?, (rest2.drop na) with
+          | some att, nd :: rest3 =>
+            match nd.toNat? with
+            | none => "bad-op"
+            | some nd =>
+              match parseDates ps nd rest3 with
+              | some (tabs, rest4) =>
+                match parseOps rest4 with
+                | some ops =>
+                  let seg : Nat → Nat → Nat → V6 := fun k => segOf (tabs.getD k [])
+                  let nAtt := (ops.filter (fun o => match o with | .asFrame _ _ => true | _ => false)).length
+                  let fuel := 2 * (ps.length + att.length + nAtt) + 4
+                  match run fuel ps seg ⟨[], att⟩ ops with
+                  | some (_, rs) => joinWith " | " (rs.map showRes)
+                  | none => "bad-index"
+                | none => "bad-op"
+              | none => "bad-op"
+          | _, _ => "bad-op"
+      | _, _ => "bad-op"
+  | _ => "bad-op"
+
 /-- `spk <orbit|offset> <a> <b> <npairs> <c-t>… <6·npairs floats>`:
     orbit  = `jpl.get_orbit(a, date).copy(frame=b)`;
     offset = zero state vector in the frame of a, `.copy(frame=b)`.
@@ -52,6 +125,7 @@ def handle : List String → Option String
         | none => "bad-op"
       | none => "bad-op"
     | _, _, _ => "bad-op"
+  | "seq" :: rest => some (handleSeq rest)
   | "sun" :: rest => some <|
     match takeFloats 3 rest with
     | some ([tm, t0, tp], _) => fsToStr (Solar.sunState tm t0 tp)
